@@ -1418,6 +1418,11 @@ pub fn server_message_classification() -> Value {
 			(r#"[123,{"jsonrpc":"2.0","method":"add","params":[1]}]"#, json!([{"code":-32600,"id":null}])),
 			(r#"[1,{"jsonrpc":"2.0","method":"add"},{"jsonrpc":"2.0","id":9}]"#, json!([{"code":-32600,"id":null},{"code":-32600,"id":9}])),
 			(r#"[{"jsonrpc":"2.0","method":"add","params":[1]},{"jsonrpc":"2.0","method":"add"}]"#, Value::Null),
+			// entries that are not objects are invalid requests with id null — also when serde could read a struct out of an array
+			(r#"[["2.0",77,"add",[1,2]]]"#, json!([{"code":-32600,"id":null}])),
+			(r#"[["2.0","add",[1,2]]]"#, json!([{"code":-32600,"id":null}])),
+			(r#"[{"jsonrpc":"2.0","id":1,"method":"add","params":[1]},[1]]"#, json!([{"result":1,"id":1},{"code":-32600,"id":null}])),
+			(r#"[["x"], "add", 5, null, true]"#, json!([{"code":-32600,"id":null},{"code":-32600,"id":null},{"code":-32600,"id":null},{"code":-32600,"id":null},{"code":-32600,"id":null}])),
 			(r#"[]"#, err(-32600, Value::Null)),
 			(r#"[{"jsonrpc":"2.0","id":1,"method":"add","params":[1,2]},{"jsonrpc":"2.0","id":2,"method":"echo","params":["x"]},{"jsonrpc":"2.0","id":3,"method":"aadd","params":[5]}]"#, json!([{"result":3,"id":1},{"result":"x","id":2},{"result":5,"id":3}])),
 		];
